@@ -242,7 +242,7 @@ Qed.
 Lemma skip_parens_len : forall l d, (List.length (skip_parens d l) <= List.length l)%nat.
 Proof.
   induction l as [|x r IH]; intros d; [cbn; lia|].
-  cbn [skip_parens].
+  cbn [skip_parens]. destruct (it_tok x =? T_SEMICOLON); [lia|].
   destruct (if it_tok x =? T_LPAREN then S d else if it_tok x =? T_RPAREN then Nat.pred d else d);
     [lia|]. specialize (IH (S n)). cbn [List.length]. lia.
 Qed.
